@@ -94,7 +94,7 @@ pub fn render(ps: &[Param]) -> String {
             l.push(format!("\tr[0usize] = {}i32;", 11 + i));
             l.push("}".into());
         }
-        if p.way == "forward" {
+        if p.way == "forward" || p.way == "forward2" {
             l.push(format!("fn g{}(r: {})", i + 1, forward_type(&p.kd)));
             l.push("{".into());
             l.push(format!("\t{} = {}i32;", access("r", &p.kd), 11 + i));
@@ -113,6 +113,7 @@ pub fn render(ps: &[Param]) -> String {
             "copy" => format!("var c{}: i32 = {}; c{} = {}i32;", i + 1, access(&q, &p.kd), i + 1, 11 + i),
             "write" => format!("{} = {}i32;", access(&q, &p.kd), 11 + i),
             "forward" => format!("g{}({}{});", i + 1, if p.kd == "pptr" { "&&" } else { "&" }, q),
+            "forward2" => format!("g{}(&&{});", i + 1, q),
             "xfwd" => format!("gx{}({});", i + 1, q),
             "xfwdamp" => format!("gx{}(&{});", i + 1, q),
             _ => String::new(),
